@@ -9,3 +9,4 @@ pub use crate::page_region::PageRegion;
 pub use crate::store::verif_hooks::{Meta, MAGIC, META_SIZE, VERSION};
 pub use crate::bitbox::verif_hooks as bitbox;
 pub use crate::page_cache::verif_hooks as page_cache;
+pub use crate::io::verif_faults as io_faults;
